@@ -1258,8 +1258,6 @@ XSLTEngineImpl::addResultAttribute(
     {
         bool    fExcludeAttribute = false;
 
-        const XalanDOMChar*     theName = aname.c_str();
-
         if (equals(aname, DOMServices::s_XMLNamespace) == true)
         {
             // OK, we're adding a default namespace declaration.  So see if the length
@@ -1342,65 +1340,11 @@ XSLTEngineImpl::addResultAttribute(
                 fExcludeAttribute = true;
             }
         }
-        else
-        {
-            // Adding an attribute replaces any attribute of the element with
-            // the same expanded name.  The list is keyed by the QName, so see
-            // if it has that name with another prefix...
-            const XalanDOMString::size_type     theSeparatorIndex =
-                indexOf(aname, XalanUnicode::charColon);
-
-            if (theSeparatorIndex < aname.length())
-            {
-                assert(m_executionContext != 0);
-
-                const ECGetCachedString     prefixGuard(*m_executionContext);
-
-                XalanDOMString&     prefix = prefixGuard.get();
-
-                substring(aname, prefix, 0, theSeparatorIndex);
-
-                const XalanDOMString* const     theNamespace =
-                    getResultNamespaceForPrefix(prefix);
-
-                const XalanDOMChar* const   theLocalName =
-                    aname.c_str() + theSeparatorIndex + 1;
-
-                const XalanSize_t   theCount =
-                    theNamespace == 0 ? 0 : attList.getLength();
-
-                for (XalanSize_t i = 0; i < theCount; ++i)
-                {
-                    const XalanDOMChar* const   theOtherName = attList.getName(i);
-
-                    const XalanDOMString::size_type     theOtherIndex =
-                        indexOf(theOtherName, XalanUnicode::charColon);
-
-                    if (theOtherName[theOtherIndex] != 0 &&
-                        equals(theOtherName + theOtherIndex + 1, theLocalName) == true)
-                    {
-                        prefix.assign(theOtherName, theOtherIndex);
-
-                        const XalanDOMString* const     theOtherNamespace =
-                            getResultNamespaceForPrefix(prefix);
-
-                        if (theOtherNamespace != 0 &&
-                            equals(*theOtherNamespace, *theNamespace) == true)
-                        {
-                            // Replace the value of that one.
-                            theName = theOtherName;
-
-                            break;
-                        }
-                    }
-                }
-            }
-        }
 
         if (fExcludeAttribute == false)
         {
             attList.addAttribute(
-                theName,
+                aname.c_str(),
                 Constants::ATTRTYPE_CDATA.c_str(),
                 value);
         }
